@@ -95,6 +95,25 @@ func classify(c orderCase, p Prediction) (nontrivial bool, labels []string) {
 		if later {
 			labels = append(labels, "two-rejecters")
 		}
+		// the position of `logging` relative to the rejecting plugin shows in the access log
+		lb, la := 0, 0
+		for i, e := range c.Chain {
+			if e.Kind == "logging" && i < p.RejectAt {
+				lb++
+			}
+			if e.Kind == "logging" && i > p.RejectAt {
+				la++
+			}
+		}
+		if lb > 0 {
+			labels = append(labels, "logging-before-rejecter")
+		}
+		if la > 0 {
+			labels = append(labels, "logging-after-rejecter")
+		}
+		if lb > 0 && la > 0 {
+			labels = append(labels, "reject-between-loggings")
+		}
 	} else {
 		_, _, ab, _ := Witnesses(c.Chain, len(c.Chain))
 		labels = append(labels, "accepted")
@@ -134,9 +153,9 @@ func TestC17OrderEnumerated(t *testing.T) {
 	const name = "order-gating-enumerated"
 	maxLen := lab.Scale(3, 4)
 	sub := lab.Sub(name, fmt.Sprintf("ALL sequences of length 0..%d over {probe, logging, headers, size_limit(16), gzip, custom-auth(alpha), request-id} "+
-		"(every permutation of every sub-multiset), built from generated YAML text through yaml.v3, x 6 request classes (X-API-Key right/wrong/absent x declared body 4/40 bytes) x 2 variants (plain request on the first build; 'Upgrade: websocket' offer served by the second handler built from the same configuration value); "+
+		"(every permutation of every sub-multiset), built from generated YAML text through yaml.v3, x 6 request classes (X-API-Key right/wrong/absent x declared body 4/40 bytes) x 3 variants (plain request on the first build; 'Upgrade: websocket' offer served by the second handler built from the same configuration value; CORS preflight = OPTIONS + Origin + Access-Control-Request-Method/-Headers); "+
 		"oracle: probe trace = enter in configured order with the request marks of exactly the earlier headers/request-id instances, terminal, exit in reverse; on rejection probes/terminal after the "+
-		"rejecter never run, client gets 401/413 and only the response marks of earlier plugins; non-trivial = rejection with a probe on each side, or accepted with >= 2 position-observable elements", maxLen))
+		"rejecter never run, client gets 401/413 and only the response marks of earlier plugins; the access log (process-global logger captured through a pipe, request identified by its unique path) has exactly one line per `logging` instance listed before the rejecting plugin (all of them when nothing rejects) and none from an instance listed after it; non-trivial = rejection with a probe on each side, or accepted with >= 2 position-observable elements", maxLen))
 	var rc orderCase
 	if lab.ReplayCase(name, &rc) {
 		if _, _, d := runOrderCase(rc); d != "" && d != refused {
@@ -155,10 +174,13 @@ func TestC17OrderEnumerated(t *testing.T) {
 			for _, rq := range enumReqs {
 				// each (chain, request class) twice: plain on a single build, and as an upgrade
 				// offer served by the second handler built from the same configuration value
-				for variant := 0; variant < 2; variant++ {
-					c := orderCase{Chain: append([]Elem{}, prefix...), Req: rq, Route: "yaml", Builds: 1 + variant}
-					if variant == 1 {
+				for variant := 0; variant < 3; variant++ {
+					c := orderCase{Chain: append([]Elem{}, prefix...), Req: rq, Route: "yaml", Builds: 1 + variant%2}
+					switch variant {
+					case 1:
 						c.Req.Dress = "upgrade-websocket"
+					case 2:
+						c.Req.Dress = "cors-preflight"
 					}
 					obs, pred, d := runOrderCase(c)
 					nt, labels := classify(c, pred)
@@ -218,7 +240,7 @@ func genReq(rt *rapid.T) Req {
 		Body:    rapid.SampledFrom([]int{0, 4, 40, 200}).Draw(rt, "body"),
 		Gzip:    rapid.Bool().Draw(rt, "accept_gzip"),
 		ReqMark: rapid.SampledFrom([]string{"", "client"}).Draw(rt, "client_mark"),
-		Dress:   rapid.SampledFrom(append([]string{"", "", "", ""}, Dresses...)).Draw(rt, "dress"),
+		Dress:   rapid.SampledFrom(append([]string{"", "", "", "", "", "", "upgrade-websocket", "cors-preflight", "cors-preflight-min"}, Dresses...)).Draw(rt, "dress"),
 	}
 }
 
@@ -243,6 +265,34 @@ func sandwich(rt *rapid.T, chain []Elem, witness Elem) {
 	b := rapid.IntRange(j+1, n-1).Draw(rt, "b")
 	chain[j] = genRejecter(rt)
 	chain[a], chain[b] = witness, witness
+}
+
+// placeLogging puts (with probability 1/2) a `logging` instance at a drawn position that holds neither a
+// rejecting plugin nor - if avoidable - a probe: by construction `logging` occurs at every position
+// relative to the rejecting plugins (before, after, both sides when drawn twice).
+func placeLogging(rt *rapid.T, chain []Elem) {
+	for round := 0; round < 2; round++ {
+		if rapid.IntRange(0, 3).Draw(rt, "place_logging") >= 2-round {
+			return
+		}
+		var free, soft []int
+		for i, e := range chain {
+			switch e.Kind {
+			case "custom-auth", "size_limit", "logging":
+			case "probe":
+				soft = append(soft, i)
+			default:
+				free = append(free, i)
+			}
+		}
+		if len(free) == 0 {
+			free = soft
+		}
+		if len(free) == 0 {
+			return
+		}
+		chain[rapid.SampledFrom(free).Draw(rt, "logging_at")] = Elem{Kind: "logging", Style: rapid.SampledFrom([]int{0, 2}).Draw(rt, "lstyle")}
+	}
 }
 
 // genReqFor draws a request for a given chain by construction: with probability ~1/2 it is aimed
@@ -312,7 +362,7 @@ func genReqFor0(rt *rapid.T, chain []Elem) Req {
 func TestC17OrderSampled(t *testing.T) {
 	sub := lab.Sub("order-gating-sampled", "rapid: chains of length 4-5 over the seven kinds with per-instance apiKey in {alpha,beta} or (40%) an unusual non-empty key (whitespace-only, whitespace-padded, interior spaces, 2 KiB, non-ASCII), max_request_body in {default,16,100}, "+
 		"YAML rendering styles (block/flow, quoted/plain, int/float) or hand-built Go maps typed as yaml.v3 delivers them (50/50); requests: X-API-Key exact / absent / a near miss of the configured key (trimmed, padded, upper-cased, shortened) set verbatim on the *http.Request, body 0/4/40/200, "+
-		"Accept-Encoding gzip or not, client-sent mark, 1-2 further X-API-Key field lines in 1 of 8 requests (keys of the chain / wrong ones; either documented-compatible reading of such a request is accepted, the gating must be consistent with it), request dressing in {none, Upgrade: websocket, Upgrade: h2c, Expect: 100-continue, PUT, PATCH, DELETE, Authorization header, Range}; BuildChain called 1..3 times on the same configuration value, the request served by the last handler built; same oracle as the enumeration; non-trivial = rejection with >= 1 probe on each side of the rejecting plugin, or accepted with >= 2 position-observable elements")
+		"Accept-Encoding gzip or not, client-sent mark, 1-2 further X-API-Key field lines in 1 of 8 requests (keys of the chain / wrong ones; either documented-compatible reading of such a request is accepted, the gating must be consistent with it), request dressing in {none, Upgrade: websocket, Upgrade: h2c, Expect: 100-continue, PUT, PATCH, DELETE, Authorization header, Range, CORS preflight (OPTIONS + Origin + Access-Control-Request-Method [+ -Headers]), plain OPTIONS, HEAD, TRACE, CONNECT with a path, PROPFIND, lower-case method token with preflight headers, Origin only, Origin + Access-Control-Request-Method on a non-OPTIONS request, X-HTTP-Method-Override, Cookie carrying the key, X-Forwarded-For/X-Real-IP loopback} - each with the case's body if it has one; BuildChain called 1..3 times on the same configuration value, the request served by the last handler built; same oracle as the enumeration (incl. the access-log count per `logging` instance); non-trivial = rejection with >= 1 probe on each side of the rejecting plugin, or accepted with >= 2 position-observable elements")
 	sub.NontrivialFloor(0.50)
 	sub.Floor("reject-between-probes", 0.10)
 	sub.Floor("route=yaml", 0.40)
@@ -320,6 +370,9 @@ func TestC17OrderSampled(t *testing.T) {
 	sub.Floor("rebuilt", 0.30)
 	sub.Floor("dress=upgrade-websocket", 0.03)
 	sub.Floor("several-key-lines", 0.05)
+	sub.Floor("dress=cors-preflight", 0.03)
+	sub.Floor("logging-after-rejecter", 0.04)
+	sub.Floor("logging-before-rejecter", 0.04)
 	lab.Check(t, sub, 1500, 50000, func(rt *rapid.T) {
 		n := rapid.IntRange(4, 5).Draw(rt, "len")
 		var chain []Elem
@@ -327,6 +380,7 @@ func TestC17OrderSampled(t *testing.T) {
 			chain = append(chain, genValidElem(rt, true))
 		}
 		sandwich(rt, chain, Elem{Kind: "probe"})
+		placeLogging(rt, chain)
 		c := orderCase{Chain: chain, Req: genReqFor(rt, chain), Route: rapid.SampledFrom([]string{"yaml", "go"}).Draw(rt, "route"),
 			Builds: rapid.SampledFrom([]int{1, 1, 2, 3}).Draw(rt, "builds")}
 		obs, pred, d := runOrderCase(c)
